@@ -28,6 +28,7 @@ UNITS = {
     "infix": [()],
     "stdw": [("async",)],
     "wmode": [(), ("async",)],
+    "symlink": [()],
 }
 
 # property -> list of (unit, features)
@@ -41,11 +42,11 @@ PROP_UNITS = {
     "C08": [("state", ())],
     "C09": [("state", ()), ("timestamps", ()), ("builder", ())],
     "C13": [("logger", TF), ("flw", ()), ("multi", ()), ("primary", ()), ("lh", TF), ("lbuild", ()), ("builder", ())],
-    "C14": [("state", ()), ("listing", ()), ("naming", ()), ("timestamps", ()), ("cleanup", ()), ("latest", ()), ("infix", ())],
+    "C14": [("state", ()), ("listing", ()), ("naming", ()), ("timestamps", ()), ("cleanup", ()), ("latest", ()), ("infix", ()), ("symlink", ())],
     "C15": [("state", ()), ("handle", ()), ("flw", ()), ("dispatch", ("async",)), ("handle_async", ("async",)), ("swrite", ()), ("stdw", ("async",)), ("lbuild", ()), ("flw", ("async",)), ("primary", ()), ("wmode", ()), ("wmode", ("async",)), ("builder", ())],
-    "C16": [("naming", ()), ("listing", ()), ("state", ()), ("builder", ()), ("handle", ()), ("flw", ()), ("multi", ()), ("primary", ()), ("lh", TF)],
+    "C16": [("naming", ()), ("listing", ()), ("state", ()), ("builder", ()), ("handle", ()), ("flw", ()), ("multi", ()), ("primary", ()), ("lh", TF), ("symlink", ())],
     "C18": [("state", ()), ("handle", ()), ("builder", ()), ("lh", TF)],
-    "C19": [("state", ()), ("logger", TF), ("multi", ()), ("timestamps", ()), ("swrite", ()), ("lbuild", ())],
+    "C19": [("state", ()), ("logger", TF), ("multi", ()), ("timestamps", ()), ("swrite", ()), ("lbuild", ()), ("symlink", ())],
     "C20": [("swrite", ()), ("stdw", ("async",)), ("handle_async", ("async",)), ("dnow", ()), ("lbuild", ()), ("builder", ()), ("flw", ()), ("primary", ()), ("multi", ()), ("logger", TF)],
 }
 
